@@ -84,6 +84,10 @@ def correspond(ctx):
                              (16, 'final tables differ')) if code & b]
       ctx.broken('correspondence:K1 model vs engine trace (%s)' % ', '.join(bits),
                  json.dumps({'history': meta['history'], 'bundle': meta['bundle']}, default=repr)[:1500])
+    if code & K.B_LAWS:
+      ctx.broken('monitor: ValLaws (reflexivity / idempotence of Column.set / strict_equal implies equal_encoding / '
+                 'defaults are fixed points) fails on a value of a recorded trace',
+                 json.dumps({'bundle': meta['bundle']}, default=repr)[:800])
     if code & (K.B_SC1 | K.B_SC2):
       n_sc += 1
       ctx.bump('side-condition-violated:' + ('SC1' if code & K.B_SC1 else '') + ('SC2' if code & K.B_SC2 else ''))
